@@ -298,6 +298,37 @@ func genC15(c *Ctx) {
 		}
 		c.add("bsu", s(r.Intn(500)), s(1+r.Intn(80)), lens)
 	}
+	// every ordered triple of blob lengths from a small set with widths 1..8 (wide, narrow, wider again; whole and
+	// broken subtrees), thresholds 1..3, aligned and misaligned cursors: each blob at the least multiple of
+	// its OWN width - an alignment remembered from an earlier blob must not be trusted
+	{
+		set := []int{1, 2, 3, 4, 5, 8, 9, 16, 17, 64, 65}
+		for t := 1; t <= 3; t++ {
+			for _, a := range set {
+				for _, b := range set {
+					for _, d := range set {
+						cur := (a*7 + b*3 + d) % 9
+						lensI := []int{a, b, d}
+						pos := cur
+						want := make([]uint32, 0, 3)
+						for _, n := range lensI {
+							pos = inclusion.NextShareIndex(pos, n, t)
+							want = append(want, uint32(pos))
+							pos += n
+						}
+						used, idx := inclusion.BlobSharesUsedNonInteractiveDefaults(cur, t, lensI...)
+						ok := used == pos-cur && len(idx) == 3 && idx[0] == want[0] && idx[1] == want[1] && idx[2] == want[2]
+						c.check(ok, "BlobSharesUsedNonInteractiveDefaults", "differs from aligning each blob to its own subtree width in turn",
+							map[string]any{"cursor": cur, "threshold": t, "lens": fmt.Sprint(lensI)})
+						if (a+b+d+t)%3 == 0 {
+							c.add("bsu", s(cur), s(t), s(a)+","+s(b)+","+s(d))
+						}
+					}
+				}
+			}
+		}
+		c.count("bsu_all_triples")
+	}
 	// consecutive blobs in one call whose lengths straddle a power of four (the minimal square side, which
 	// caps the width, doubles there) while ceil(len/threshold) stays the same, for every threshold 1..130, at
 	// aligned and misaligned cursors: each blob must be aligned to ITS OWN width (the fold recomputed from
